@@ -127,12 +127,14 @@ pub struct TabSut {
     pub next_tok: u32,
     pub class_of: Vec<u8>,
     pub base: Baseline,
+    /// set after a destructor panic (the only situation in which leaks are permitted)
+    pub leaks_allowed: bool,
 }
 
 impl TabSut {
     pub fn new(cfg: &TabCfg) -> Self {
         let base = Baseline::take();
-        TabSut { table: Table::default(), model: Vec::new(), next_tok: 1, class_of: cfg.class_of(), base }
+        TabSut { table: Table::default(), model: Vec::new(), next_tok: 1, class_of: cfg.class_of(), base, leaks_allowed: false }
     }
     fn tok(&mut self) -> u32 {
         let t = self.next_tok;
@@ -226,6 +228,32 @@ impl TabSut {
                     return Err(format!("iter_hash({h:#x}) did not yield stored element {:?} that was inserted with this hash", m));
                 }
             }
+            // size_hint must bracket what is actually still yielded, at every position
+            {
+                let total = seen.len();
+                let mut it = self.table.iter_hash(h);
+                for step in 0..=total {
+                    let (lo, hi) = it.size_hint();
+                    let left = total - step;
+                    if lo > left || hi.map_or(false, |x| x < left) {
+                        return Err(format!("iter_hash({h:#x}): size_hint() = {:?} after {step} items but {left} more are yielded", (lo, hi)));
+                    }
+                    if it.next().is_none() {
+                        break;
+                    }
+                }
+                let mut it = self.table.iter_hash_mut(h);
+                for step in 0..=total {
+                    let (lo, hi) = it.size_hint();
+                    let left = total - step;
+                    if lo > left || hi.map_or(false, |x| x < left) {
+                        return Err(format!("iter_hash_mut({h:#x}): size_hint() = {:?} after {step} items but {left} more are yielded", (lo, hi)));
+                    }
+                    if it.next().is_none() {
+                        break;
+                    }
+                }
+            }
             // internal iteration must visit the same elements
             let folded = self.table.iter_hash(h).fold(0usize, |a, e| a + (seen.contains(&e.tok) as usize));
             if folded != seen.len() || self.table.iter_hash(h).count() != seen.len() {
@@ -241,7 +269,7 @@ impl TabSut {
         }
         let a = self.table.allocation_size();
         let l = env::live_bytes() - self.base.live_bytes;
-        if a != l {
+        if a != l && !self.leaks_allowed {
             return Err(format!("allocation_size() = {a} but the allocator ledger holds {l} bytes"));
         }
         Ok(())
@@ -461,6 +489,8 @@ impl TabHarness {
                 };
                 let mut selected: Vec<u32> = Vec::new();
                 let mut rest = 0usize;
+                // (lower, upper) size hints taken before each next()
+                let mut hints: Vec<(usize, usize)> = Vec::new();
                 {
                     let mut it = s.table.extract_if(|e| {
                         env::tick(Class::Closure);
@@ -474,6 +504,8 @@ impl TabHarness {
                     });
                     let mut n = 0u8;
                     while cut == 255 || n < cut.min(1) || (cut < 254 && n < cut) {
+                        let (lo, hi) = it.size_hint();
+                        hints.push((lo, hi.unwrap_or(usize::MAX)));
                         match it.next() {
                             Some(e) => yielded.push((e.id, e.tok)),
                             None => break,
@@ -490,6 +522,13 @@ impl TabHarness {
                 if cut == 254 {
                     s.model.retain(|e| !selected.contains(&e.1));
                     return Ok(());
+                }
+                if cut == 255 {
+                    // run to the end: the hint taken before the i-th next() must bracket the yielded.len() - i items that followed
+                    for (i, &(lo, hi)) in hints.iter().enumerate() {
+                        let left = yielded.len().saturating_sub(i);
+                        chk!(c, lo <= left && left <= hi, "extract_if: size_hint() = ({lo}, {hi}) before item {i}, but {left} more elements were yielded");
+                    }
                 }
                 let mut v2 = visited.clone();
                 v2.sort_unstable();
